@@ -270,9 +270,12 @@ func modelOf(base string, id int64) interface{} {
 // build performs every call of the chain except the finisher.
 func (c *Chain) build(root *gorm.DB) *gorm.DB {
 	tx := root
+	if c.SkipHooks {
+		tx = tx.Session(&gorm.Session{SkipHooks: true})
+	}
 	table, model := tableOf(c.Base)
 	switch {
-	case c.Kind == "raw" || c.Kind == "exec":
+	case c.Kind == "raw" || c.Kind == "exec" || c.Kind == "save" || c.Kind == "firstor":
 		return tx
 	case c.Base == "sub":
 		tx = tx.Table("(?) AS t", c.Sub.build(root))
@@ -448,7 +451,13 @@ func (c *Chain) Apply(root *gorm.DB) *gorm.DB {
 		case "struct":
 			return tx.Create(c.Rows[0].goPtr())
 		case "slice":
-			return tx.Create(recSlicePtr(c.Rows))
+			switch c.Batch {
+			case "inbatches":
+				return tx.CreateInBatches(recSlicePtr(c.Rows), c.BatchSize)
+			case "session":
+				return tx.Session(&gorm.Session{CreateBatchSize: c.BatchSize}).Create(recSlicePtr(c.Rows))
+			}
+			return tx.Create(recSlicePtr(c.Rows)) // also Batch "config": the handle carries the size
 		case "map":
 			return tx.Create(kvMap(c.MapRows[0].Keys, c.MapRows[0].Vals, root))
 		case "maps":
@@ -457,6 +466,24 @@ func (c *Chain) Apply(root *gorm.DB) *gorm.DB {
 				ms[i] = kvMap(r.Keys, r.Vals, root)
 			}
 			return tx.Create(ms)
+		}
+	case "save":
+		if c.CrKind == "struct" {
+			return tx.Save(c.Rows[0].goPtr())
+		}
+		return tx.Save(recSlicePtr(c.Rows))
+	case "firstor":
+		dest := Rec{Table: c.Rows[0].Table}.goPtr()
+		cond := c.Rows[0].goValue()
+		switch {
+		case c.Fin == "firstorinit" && c.InlineCond:
+			return tx.FirstOrInit(dest, cond)
+		case c.Fin == "firstorinit":
+			return tx.Where(cond).FirstOrInit(dest)
+		case c.InlineCond:
+			return tx.FirstOrCreate(dest, cond)
+		default:
+			return tx.Where(cond).FirstOrCreate(dest)
 		}
 	case "raw":
 		return tx.Raw(c.Raw.SQL, c.Raw.args(root)...).Scan(&[]map[string]interface{}{})
@@ -469,10 +496,23 @@ func (c *Chain) Apply(root *gorm.DB) *gorm.DB {
 // Write reports whether the finisher changes data (gorm wraps it in its default transaction).
 func (c *Chain) Write() bool {
 	switch c.Kind {
-	case "update", "delete", "create", "exec":
+	case "update", "delete", "create", "exec", "save":
 		return true
+	case "firstor":
+		return c.Fin == "firstorcreate"
 	}
 	return false
+}
+
+// Batched: the create is split into batches; the handle a dry run returns then exposes no statement.
+func (c *Chain) Batched() bool { return c.Kind == "create" && c.Batch != "" }
+
+// ConfigBatchSize is the Config.CreateBatchSize the handle must be opened with (0 = none).
+func (c *Chain) ConfigBatchSize() int {
+	if c.Batched() && c.Batch == "config" {
+		return c.BatchSize
+	}
+	return 0
 }
 
 // MayNotFind: finishers that report ErrRecordNotFound on an empty result.
